@@ -25,8 +25,15 @@ KINDS = ('Char', 'Text', 'Integer', 'BigInteger', 'PositiveInteger',
 REL_KINDS = ('ForeignKey', 'OneToOne', 'ManyToMany')
 
 
+CUSTOM_KINDS = ('TagField', 'CodeField', 'NoteField')
+
+
 def field_class(kind):
     from django.db import models
+    if kind in CUSTOM_KINDS:
+        # custom CharField subclasses (hand-built cases only)
+        from . import customfields
+        return getattr(customfields, kind)
     return {
         'Char': models.CharField, 'Text': models.TextField,
         'Integer': models.IntegerField, 'BigInteger': models.BigIntegerField,
